@@ -46,13 +46,6 @@ package tikv
 //@   pure
 //@   ensures [def] result == (err != nil && tikv_write_conflict(err))
 
-//@ func @github.com/kubewharf/kubebrain/pkg/storage.NewErrConflict(idx, key, val) (result)
-//@   assumed
-//@   ensures [conflict] typeis(result, "*storage.Conflict") && asptr(result, "*storage.Conflict") != nil && err_is(result, storage.ErrCASFailed) && !err_is(result, storage.ErrUncertainResult) && !err_is(result, storage.ErrKeyNotFound)
-//@ func @github.com/kubewharf/kubebrain/pkg/storage.NewErrUncertainResult(originErr) (result)
-//@   assumed
-//@   ensures [uncertain] typeis(result, "*storage.errUncertainResult") && err_is(result, storage.ErrUncertainResult) && (err_is(result, storage.ErrCASFailed) == err_is(originErr, storage.ErrCASFailed))
-
 // ---- the operations buffered by a batch: each is a closure run by Commit ----
 //@ pred wf_batch(b) = b != nil && b.txn != nil
 
